@@ -54,6 +54,11 @@ mod parsing {
 
     pub fn parse_mode(pattern: &str, for_dir: bool) -> Result<u32, Box<dyn Error>> {
         let mode = if pattern.contains(|c: char| c.is_ascii_digit()) {
+            // parse_numeric() also accepts what chmod does - an operator in
+            // front, surrounding blanks - but a numeric MODE is octal digits only.
+            if !pattern.chars().all(|c| c.is_digit(8)) {
+                return Err(format!("invalid mode '{pattern}'").into());
+            }
             parse_numeric(0, pattern, for_dir)?
         } else {
             let mut mode = 0;
